@@ -3,6 +3,7 @@ package props
 import (
 	"fmt"
 	"go/token"
+	"go/types"
 	"strings"
 
 	"golang.org/x/tools/go/ssa"
@@ -129,6 +130,66 @@ func runC20(c *eng.Ctx) {
 		}
 	}
 	c.Expect("ORDER-commit-then-delete", 6)
+
+	// ID-canonical: a chunk's identity is its canonical id string (GetFileIdString): the raw FileId string field is
+	// cleared when an entry is serialized and refilled when it is read back, so comparing raw fields makes a chunk of
+	// the stored old version never equal to the same chunk in the version just written
+	if fn := c.NeedFunc("weed/filer", "(*Filer).deleteChunksIfNotNew"); fn != nil {
+		canonical := func(v ssa.Value) bool {
+			call, ok := eng.Unwrap(v).(*ssa.Call)
+			return ok && eng.CalleeIs(call, "filer_pb.FileChunk).GetFileIdString")
+		}
+		n := 0
+		for _, in := range eng.Find(fn, func(in ssa.Instruction) bool {
+			switch in.(type) {
+			case *ssa.MapUpdate, *ssa.Lookup:
+				return true
+			}
+			return false
+		}) {
+			var key ssa.Value
+			switch x := in.(type) {
+			case *ssa.MapUpdate:
+				key = x.Key
+			case *ssa.Lookup:
+				key = x.Index
+			}
+			if bt, ok := key.Type().Underlying().(*types.Basic); !ok || bt.Kind() != types.String {
+				continue
+			}
+			n++
+			c.Ob("ID-canonical", fmt.Sprintf("%s key#%d", eng.FuncName(fn), n), canonical(key), in.Pos(), "old and new chunks are matched by their canonical id string, not by the raw string field that serialization clears")
+		}
+	}
+	for _, spec := range []struct{ pkg, fn string }{{"weed/filer", "DoMinusChunks"}} {
+		fn := c.NeedFunc(spec.pkg, spec.fn)
+		if fn == nil {
+			continue
+		}
+		n := 0
+		for _, in := range eng.Find(fn, func(in ssa.Instruction) bool {
+			switch in.(type) {
+			case *ssa.MapUpdate, *ssa.Lookup:
+				return true
+			}
+			return false
+		}) {
+			var key ssa.Value
+			switch x := in.(type) {
+			case *ssa.MapUpdate:
+				key = x.Key
+			case *ssa.Lookup:
+				key = x.Index
+			}
+			if bt, ok := key.Type().Underlying().(*types.Basic); !ok || bt.Kind() != types.String {
+				continue
+			}
+			n++
+			call, ok := eng.Unwrap(key).(*ssa.Call)
+			c.Ob("ID-canonical", fmt.Sprintf("%s key#%d", eng.FuncName(fn), n), ok && eng.CalleeIs(call, "filer_pb.FileChunk).GetFileIdString"), in.Pos(), "chunk sets are subtracted by canonical id string")
+		}
+	}
+	c.Expect("ID-canonical", 4)
 
 	// ---------------------------------------------------------------- (4) GUARD-hardlink
 	hardlinkTest := func(fn *ssa.Function, entryIs func(ssa.Value) bool) map[eng.Edge]bool {
